@@ -284,4 +284,7 @@ in the result `A = live_out`, `B = live_in` -/
 def liveRunModel (D : CfgData) (fuel : Nat) : WL Nat :=
   run (Graph.revEdges D.graph.edges) (liveFlow D) fuel (WL.init D.exits)
 
+/-- fuel that always suffices (`Proofs/C06Worklist.lean`: `run_terminates`) -/
+def liveFuel (D : CfgData) : Nat := fuelBound (Graph.revEdges D.graph.edges) D.exits (liveFlow D)
+
 end Malt.Analysis
